@@ -772,12 +772,29 @@ def eval_arm_narrow_limits(acc, mr, ac, q, V):
             acc.violation("arm_narrow_limits_one_reading", dict(base, fn=name), {"rel_as_given": rs[0], "rel_clamped": rs[1]}, REL)
 
 
+def other_arm_first(name, seed):
+    """Before an arm is asked anything, ANOTHER arm (another geometry; the same joint count where the palette has one) is
+    built and asked for its mass matrix and inverse dynamics in the same process - explicitly, in the run and in the replay
+    alike, so that what an arm answers never depends on which worker happened to serve which arm before.  Anything the
+    library keeps at class or module level (a memo keyed by link index, a scratch buffer) is shared between the two."""
+    names = list(dynlib.ARMS_THOROUGH)
+    n_of = lambda nm: nm.split("@")[0]
+    cand = [x for x in names if x != name and n_of(x) == n_of(name)] or [x for x in names if x != name]
+    oc = arm_case(cand[0], seed + 1 if n_of(cand[0]) != "6R" else seed)
+    q = 0.3 * np.ones(oc.n)
+    with dynlib_quiet():
+        oc.arm.massMatrix(q.copy())
+        oc.arm.inverseDynamics(q.copy(), q.copy(), q.copy(), np.array([0, 0, -9.81]), np.zeros(6))
+        oc.arm.inverseDynamicsEMR(q.copy(), q.copy(), q.copy(), np.array([0, 0, -9.81]), np.zeros(6))
+
+
 def work_arms(p):
     mr = _mr()
     acc = lattice.Acc()
     items = arm_items(p["tier"])[::p.get("stride", 1)]
     raised_seen = set()
     for name, s in items[p["lo"]:p["hi"]]:
+        other_arm_first(name, p["seed"])
         ac = arm_case(name, p["seed"])
         V = vecs(ac.n, p["seed"])
         q = dynlib.arm_states(ac.n, ac.lo, ac.hi, p["tier"])[s]
@@ -895,6 +912,8 @@ def replay(rec):
     seed, tier = rec.get("seed", 0), rec.get("tier", "quick")
     mr = _mr()
     acc = lattice.Acc(max_viol=100000)
+    if str(c.get("part", "")).startswith("arms"):
+        other_arm_first(c["arm"], seed)
     if c["part"] == "arms_setter":
         ac = dynlib.build_arm(c["arm"], seed)
         V = vecs(ac.n, seed)
